@@ -186,7 +186,7 @@ void runCase(long long i, Prng& r, const Args& a) {
         double r1[DOF], r2v[DOF]; c1(ys, xs, r1); c2(ys, xs, r2v);
         Eigen::Matrix<double, DOF, 1> w; for (int k = 0; k < DOF; ++k) w(k) = wr.coeffs()(k);
         Eigen::Matrix<long double, DOF, DOF> Cl = C.template cast<long double>(); Eigen::Matrix<long double, DOF, 1> wl = w.template cast<long double>();
-        long double maha = wl.dot(Cl.fullPivLu().solve(wl)), got = 0, got2 = 0, dif = 0;
+        long double maha = wl.dot(Cl.ldlt().solve(wl)), got = 0, got2 = 0, dif = 0;
         for (int k = 0; k < DOF; ++k) { got += (long double)r1[k] * r1[k]; got2 += (long double)r2v[k] * r2v[k]; dif = std::max(dif, (long double)std::fabs(r1[k] - r2v[k])); }
         double condC = C.norm() * C.inverse().norm();
         rec("functor/constraint-covariance-mahalanobis", (double)(std::fabs(got - maha) / std::max((long double)1, maha)), 64 * Sc<double>::u() * condC + PT);
